@@ -30,6 +30,7 @@ type Up4Params struct {
 	AddFlows  bool   `json:"addFlows"`
 	Snap      bool   `json:"snap"`
 	Race      bool   `json:"race"`
+	Wide      bool   `json:"wide"` // boundary values (C16)
 }
 
 func up4Cfg(rng *rand.Rand, n4 string) agent.Cfg {
@@ -116,7 +117,7 @@ func e2eUp4Worker(args []string) error {
 			}
 		}
 
-		g := e2e.NewUp4Gen(w, rng.Int63(), 1+rng.Intn(3), 1+rng.Intn(5))
+		g := e2e.NewUp4Gen(w, rng.Int63(), 1+rng.Intn(3), 1+rng.Intn(5), p.Wide)
 		g.AddFlows = p.AddFlows
 		g.UEAlloc = w.Cfg.UEIPAlloc
 
@@ -178,7 +179,7 @@ func C04(c *core.Ctx) {
 	res := runE2EShards(c, "e2e-up4", shards, "TraceE2E_C04.cfg", func(i int) interface{} {
 		d, tr := shardDir(c, i)
 		return Up4Params{Dir: d, Trace: tr, AgentBin: filepath.Join(c.BinDir, "verif-agent"), N4Addr: n4For(i), Seed: c.Seed*1000 + int64(i), Scenarios: scen, Steps: steps,
-			Kill: i%2 == 0, AddFlows: i%3 != 2, Snap: true}
+			Kill: i%2 == 0, AddFlows: i%3 != 2, Snap: true, Wide: i%3 == 1}
 	})
 	judgeE2E(c, res, map[string]bool{"InEnvelope": true, "Up4Envelope": true})
 }
